@@ -126,6 +126,8 @@ struct Entry {
     method: String,
     aim: RootAim,
     oversize: bool,
+    /// the collection parameter is a path-traversal string towards the other database
+    traverse: bool,
 }
 
 fn entries(table: &MethodTable, class: &PathClass) -> Vec<Entry> {
@@ -133,14 +135,27 @@ fn entries(table: &MethodTable, class: &PathClass) -> Vec<Entry> {
     let mut names = table.all_names();
     names.extend(UNKNOWN_METHODS.iter().map(|s| s.to_string()));
     for m in names {
-        v.push(Entry { method: m.clone(), aim: RootAim::Natural, oversize: false });
+        v.push(Entry { method: m.clone(), aim: RootAim::Natural, oversize: false, traverse: false });
         if *class == PathClass::Root && root_params(&m, &Names::pair(0), RootAim::Other).is_some() && m != "info" && m != "db.list" {
-            v.push(Entry { method: m, aim: RootAim::Other, oversize: false });
+            v.push(Entry { method: m, aim: RootAim::Other, oversize: false, traverse: false });
         }
     }
-    v.push(Entry { method: "info".into(), aim: RootAim::Natural, oversize: true });
+    v.push(Entry { method: "info".into(), aim: RootAim::Natural, oversize: true, traverse: false });
+    if let PathClass::Db(_) = class {
+        for m in TRAVERSE_METHODS {
+            if table.db_effect(m).is_some() {
+                v.push(Entry { method: m.to_string(), aim: RootAim::Natural, oversize: false, traverse: true });
+            }
+        }
+    }
     v
 }
+
+/// Methods additionally sent with `collection` = `../<other database>/<its collection>`.
+const TRAVERSE_METHODS: [&str; 9] = [
+    "doc.get", "doc.search", "doc.count", "doc.add", "collection.metadata", "collection.delete",
+    "collection.create", "collection.ensure", "collection.flush",
+];
 
 fn build_req(n: &Names, c: &Caller, p: &PathSpec, enc: Enc, e: &Entry) -> Req {
     let m = e.method.as_str();
@@ -159,6 +174,20 @@ fn build_req(n: &Names, c: &Caller, p: &PathSpec, enc: Enc, e: &Entry) -> Req {
                 .unwrap_or_else(|| json!({})),
         }
     };
+    let mut params = params;
+    if e.traverse {
+        let t = Target::of(n, match &p.class {
+            PathClass::Db(name) => Some(name.as_str()),
+            _ => None,
+        });
+        let trav = format!("../{}/{}", t.decoy, n.coll(&t.decoy));
+        if params.get("collection").is_some() {
+            params["collection"] = json!(trav);
+        }
+        if params.get("config").is_some() {
+            params["config"]["name"] = json!(trav);
+        }
+    }
     Req { path: p.uri.clone(), auth: c.header.clone(), enc, method: e.method.clone(), params }
 }
 
@@ -279,6 +308,17 @@ async fn observe(lab: &mut Lab, req: &Req, yields: usize) -> Result<Obs, String>
     observe_c(lab, req, yields, true, 1).await
 }
 
+/// Records a violation; the same signature is kept at most twice per case so that one defect
+/// does not crowd the others out of the report.
+fn viol(st: &mut Stats, sig: impl Into<String>, detail: Value) {
+    let sig = sig.into();
+    if st.violations.iter().filter(|v| v.signature == sig).count() < 2 {
+        st.violation(sig, detail);
+    } else {
+        st.count("violations_same_signature_suppressed");
+    }
+}
+
 fn describe_muts(ms: &[Mutation]) -> Vec<String> {
     ms.iter().take(12).map(|m| m.describe()).collect()
 }
@@ -339,7 +379,7 @@ fn label_of(table: &MethodTable, class: &PathClass, method: &str) -> Option<Effe
 
 /// Is this a request the harness built valid parameters for, against an open database?
 fn expected_to_execute(cfg: &Cfg, w: &World, class: &PathClass, enc: Enc, e: &Entry) -> bool {
-    if e.oversize || enc == Enc::Missing {
+    if e.oversize || e.traverse || enc == Enc::Missing {
         return false;
     }
     if !matches!(w.spec.life, Life::Warm | Life::Reopened | Life::Restarted | Life::Crashed) {
@@ -402,28 +442,28 @@ fn judge(
                 } else {
                     format!("C14/reject/not_uniform/{}", c.kind)
                 };
-                st.violation(sig, detail("an unauthorized caller did not get the uniform rejection"));
+                viol(st, sig, detail("an unauthorized caller did not get the uniform rejection"));
             }
             st.count("oracle_no_effect");
             if !eff.is_empty() {
-                st.violation(format!("C14/reject/wrote/{}", c.kind), detail("a rejected request wrote to storage"));
+                viol(st, format!("C14/reject/wrote/{}", c.kind), detail("a rejected request wrote to storage"));
             }
             if !changed.is_empty() {
-                st.violation(format!("C14/reject/state_changed/{}", c.kind), detail("a rejected request changed the admin view"));
+                viol(st, format!("C14/reject/state_changed/{}", c.kind), detail("a rejected request changed the admin view"));
             }
         }
         Expect::PathOnly => {
             st.count("oracle_path_only");
             if let Some(r) = path_ref {
                 if obs.resp != *r {
-                    st.violation(
+                    viol(st, 
                         format!("C14/path_only/caller_dependent/{}", c.kind),
                         detail("a response that must depend on the path alone depends on the caller"),
                     );
                 }
             }
             if !eff.is_empty() || !changed.is_empty() {
-                st.violation(format!("C14/path_only/effect/{}", c.kind), detail("an unrouted/undecodable request had an effect"));
+                viol(st, format!("C14/path_only/effect/{}", c.kind), detail("an unrouted/undecodable request had an effect"));
             }
         }
         Expect::Admin | Expect::Db(_) => {
@@ -463,40 +503,46 @@ fn judge(
                 if !outside.is_empty() {
                     let mut d = detail("a database key caused storage mutations outside its database's prefix");
                     d["outside"] = json!(outside);
-                    st.violation(format!("C14/confine/write_outside_prefix/{}", c.kind), d);
+                    viol(st, format!("C14/confine/write_outside_prefix/{}", c.kind), d);
                 }
                 let nd = needles(w, own, c, req);
                 if let Some(hit) = find_leak(&obs.resp.body, &nd) {
                     let mut d = detail("the response to a database key contains another database's or server-level data");
                     d["leaked"] = json!(hit);
-                    st.violation(format!("C14/confine/response_leak/{}", c.kind), d);
+                    viol(st, format!("C14/confine/response_leak/{}", c.kind), d);
                 }
                 let foreign: Vec<&String> = changed.iter().filter(|x| *x != own).collect();
                 if !foreign.is_empty() {
                     let mut d = detail("a database key changed state outside its database");
                     d["foreign"] = json!(foreign);
-                    st.violation(format!("C14/confine/foreign_state_changed/{}", c.kind), d);
+                    viol(st, format!("C14/confine/foreign_state_changed/{}", c.kind), d);
                 }
             }
             match label {
                 Some(Effect::Read) => {
                     st.count("oracle_read_wrote_nothing");
                     st.count(&format!("read_exec:{}", e.method));
+                    if e.traverse {
+                        st.count("traversal_reads");
+                    }
                     if !eff.is_empty() {
-                        st.violation(format!("C14/read_wrote/{}", e.method), detail("a Read-labelled method wrote to storage"));
+                        viol(st, format!("C14/read_wrote/{}", e.method), detail("a Read-labelled method wrote to storage"));
                     }
                     if !changed.is_empty() {
-                        st.violation(format!("C14/read_changed_state/{}", e.method), detail("a Read-labelled method changed the admin view"));
+                        viol(st, format!("C14/read_changed_state/{}", e.method), detail("a Read-labelled method changed the admin view"));
                     }
                 }
                 Some(Effect::Mutating) => {
+                    if e.traverse {
+                        st.count("traversal_mutating");
+                    }
                     // anything the method did (or half did) must not carry over
                     dirty = dirty || obs.resp.status == 200;
                 }
                 None => {
                     st.count("oracle_unknown_method_no_effect");
                     if !eff.is_empty() || !changed.is_empty() {
-                        st.violation(
+                        viol(st, 
                             "C14/unknown_method_effect".to_string(),
                             detail("a method name that is not in the addressed scope's table had an effect"),
                         );
@@ -552,11 +598,20 @@ async fn matrix_group(cfg: &Cfg, life: Life, ci: usize, chunk: usize, st: &mut S
         labs.push(Lab::new(spec(cfg, *m, life)).await);
     }
     let none = &cfg.callers[0];
-    let probe_entry = Entry { method: "info".into(), aim: RootAim::Natural, oversize: false };
+    let probe_entry = Entry { method: "info".into(), aim: RootAim::Natural, oversize: false, traverse: false };
     // (taken in every world so that their histories stay identical)
     let mut reference_full = Value::Null;
     for lab in labs.iter_mut().rev() {
         reference_full = lab.w.full_snapshot().await;
+    }
+    // the admin view over HTTP consists of Read-labelled methods: taking it twice must give
+    // the same view (else those reads change what they read, and the view is no oracle)
+    let again = labs[0].w.full_snapshot().await;
+    let full_view_usable = again == reference_full;
+    if !full_view_usable {
+        viol(st, "C14/read_changed_state/admin_view_reads",
+             json!({"what": "the admin's Read-labelled view requests (db.list, db.metadata, collection.list, doc.count, doc.get_many, collection.metadata) changed the view they return",
+                    "first": reference_full, "second": again, "world": world_desc(&labs[0].w)}));
     }
     let encs = [Enc::Cbor, Enc::Json, Enc::Missing];
     // the uniform rejection of each encoding: what an anonymous `info` on the root gets
@@ -566,14 +621,14 @@ async fn matrix_group(cfg: &Cfg, life: Life, ci: usize, chunk: usize, st: &mut S
         for lab in labs.iter_mut() {
             let r = send(&lab.w.app, &build_req(&cfg.names, none, &cfg.paths[0], enc, &probe_entry)).await?;
             if r.status != 401 || r.error_code().as_deref() != Some("unauthorized") {
-                st.violation("C14/reject/anonymous_root_not_401", json!({"world": world_desc(&lab.w), "response": r.describe()}));
+                viol(st, "C14/reject/anonymous_root_not_401", json!({"world": world_desc(&lab.w), "response": r.describe()}));
             }
             per_world.push(r);
         }
         for i in 1..per_world.len() {
             st.count("oracle_rejection_same_in_every_world");
             if per_world[i] != per_world[0] {
-                st.violation(
+                viol(st, 
                     "C14/isolation/rejection_differs_across_worlds",
                     json!({"world": world_desc(&labs[i].w), "got": per_world[i].describe(), "reference": per_world[0].describe()}),
                 );
@@ -604,7 +659,7 @@ async fn matrix_group(cfg: &Cfg, life: Life, ci: usize, chunk: usize, st: &mut S
                         if eff != Effect::Read {
                             continue;
                         }
-                        let e = Entry { method: m, aim: RootAim::Natural, oversize: false };
+                        let e = Entry { method: m, aim: RootAim::Natural, oversize: false, traverse: false };
                         let req = build_req(&cfg.names, c, p, enc, &e);
                         let mut got: Vec<Value> = vec![];
                         for lab in labs.iter_mut() {
@@ -614,7 +669,7 @@ async fn matrix_group(cfg: &Cfg, life: Life, ci: usize, chunk: usize, st: &mut S
                         st.count("relational_own_reads_compared");
                         for i in 1..got.len() {
                             if got[i] != got[0] {
-                                st.violation(
+                                viol(st, 
                                     format!("C14/isolation/own_read_depends_on_b/{}", c.kind),
                                     json!({"what": "a database key's read of its own database differs with B's existence/key",
                                            "request": req.describe(), "world": world_desc(&labs[i].w),
@@ -632,15 +687,24 @@ async fn matrix_group(cfg: &Cfg, life: Life, ci: usize, chunk: usize, st: &mut S
                     continue;
                 }
                 let req = build_req(&cfg.names, c, p, enc, &e);
-                st.distinct(vcore::fnv_str(&format!("{}|{}|{:?}|{:?}", c.label, p.label, enc, e)));
+                st.distinct(vcore::fnv_str(&format!("{}|{life:?}|{}|{}|{:?}|{:?}", cfg.names.a, c.label, p.label, enc, e)));
                 st.count("matrix_requests");
                 let exp = expect(&labs[0].w, c, &p.class);
                 let comparable = matches!(exp, Expect::Reject | Expect::PathOnly);
                 let obs0 = observe_c(&mut labs[0], &req, 2, !comparable, 8).await?;
                 st.set("response_classes", obs0.resp.class_hash());
                 let dirty = judge(cfg, st, &labs[0].w, c, p, enc, &e, &req, &obs0, &exp, &canon[0], path_ref[0].as_ref());
-                st.sample(|| json!({"monitor": "matrix", "caller": c.label, "request": req.describe(),
-                                    "expected": format!("{exp:?}"), "status": obs0.resp.status}));
+                if (matches!(exp, Expect::Db(_)) && obs0.resp.status == 200 && e.method.starts_with("doc."))
+                    || vcore::fnv_str(&format!("{}{}{}{enc:?}", c.label, p.label, e.method)) % 1499 == 0
+                {
+                    let mut r = req.describe();
+                    if e.oversize {
+                        r["params"] = json!("<over the body limit>");
+                    }
+                    st.sample(|| json!({"monitor": "matrix", "caller": c.label, "path": p.label, "request": r,
+                                        "expected": format!("{exp:?}"), "status": obs0.resp.status,
+                                        "mutations": describe_muts(&obs0.landed)}));
+                }
                 if comparable && labs.len() > 1 {
                     st.count("relational_tuples_compared");
                     for i in 1..labs.len() {
@@ -649,7 +713,7 @@ async fn matrix_group(cfg: &Cfg, life: Life, ci: usize, chunk: usize, st: &mut S
                         let d = judge(cfg, st, &labs[i].w, c, p, enc, &e, &req, &obs, &exp_i, &canon[i], path_ref[i].as_ref());
                         st.count("relational_pairs_compared");
                         if obs.resp != obs0.resp {
-                            st.violation(
+                            viol(st, 
                                 format!("C14/isolation/differs_across_worlds/{}", c.kind),
                                 json!({"what": "the same request is answered differently depending on B's existence or key",
                                        "caller": c.label, "path": p.label, "request": req.describe(),
@@ -667,12 +731,12 @@ async fn matrix_group(cfg: &Cfg, life: Life, ci: usize, chunk: usize, st: &mut S
                     st.count("world_rebuilds");
                 } else {
                     since_full += 1;
-                    if since_full >= 24 {
+                    if since_full >= 24 && full_view_usable {
                         since_full = 0;
                         st.count("oracle_full_admin_snapshot");
                         let now = labs[0].w.full_snapshot().await;
                         if now != reference_full {
-                            st.violation(
+                            viol(st, 
                                 format!("C14/no_effect/full_admin_view_changed/{}", c.kind),
                                 json!({"caller": c.label, "path": p.label, "last_request": req.describe(),
                                        "before": reference_full, "after": now}),
@@ -686,8 +750,8 @@ async fn matrix_group(cfg: &Cfg, life: Life, ci: usize, chunk: usize, st: &mut S
     }
     st.count("oracle_full_admin_snapshot");
     let now = labs[0].w.full_snapshot().await;
-    if now != reference_full {
-        st.violation(
+    if now != reference_full && full_view_usable {
+        viol(st, 
             format!("C14/no_effect/full_admin_view_changed/{}", c.kind),
             json!({"caller": c.label, "before": reference_full, "after": now}),
         );
@@ -697,7 +761,7 @@ async fn matrix_group(cfg: &Cfg, life: Life, ci: usize, chunk: usize, st: &mut S
         let after = lab.w.snap(true).await;
         let d = lab.last_heavy.diff(&after);
         if !d.is_empty() {
-            st.violation(
+            viol(st, 
                 format!("C14/no_effect/admin_view_changed_in_window/{}", c.kind),
                 json!({"caller": c.label, "world": world_desc(&lab.w), "changed": d, "window_requests": lab.since_heavy}),
             );
@@ -738,7 +802,7 @@ async fn http_methods_case(cfg: &Cfg, st: &mut Stats) -> Result<(), String> {
                     let d = json!({"http_method": hm, "uri": uri, "caller": c.label, "world": world_desc(&lab.w),
                                    "response": r.describe(), "mutations": describe_muts(&landed)});
                     if !landed.is_empty() || after != lab.last {
-                        st.violation(format!("C14/non_post/effect/{hm}"), d.clone());
+                        viol(st, format!("C14/non_post/effect/{hm}"), d.clone());
                         lab.last = after;
                     }
                     // (the URI itself may be echoed by nothing: the health payload is name+version)
@@ -746,7 +810,7 @@ async fn http_methods_case(cfg: &Cfg, st: &mut Stats) -> Result<(), String> {
                     if let Some(hit) = find_leak(&r.body, &nd) {
                         let mut d = d.clone();
                         d["leaked"] = json!(hit);
-                        st.violation(format!("C14/non_post/leak/{hm}"), d);
+                        viol(st, format!("C14/non_post/leak/{hm}"), d);
                     }
                     match &reference {
                         None => reference = Some(r),
@@ -754,7 +818,7 @@ async fn http_methods_case(cfg: &Cfg, st: &mut Stats) -> Result<(), String> {
                             if *x != r {
                                 let mut d = d.clone();
                                 d["reference"] = x.describe();
-                                st.violation(format!("C14/non_post/caller_or_world_dependent/{hm}"), d);
+                                viol(st, format!("C14/non_post/caller_or_world_dependent/{hm}"), d);
                             }
                         }
                     }
@@ -805,7 +869,7 @@ async fn rnw_case(cfg: &Cfg, life: Life, st: &mut Stats) -> Result<(), String> {
                 if *eff != Effect::Read {
                     continue;
                 }
-                let e = Entry { method: m.clone(), aim: RootAim::Natural, oversize: false };
+                let e = Entry { method: m.clone(), aim: RootAim::Natural, oversize: false, traverse: false };
                 let req = build_req(&n, c, p, enc, &e);
                 let exp = expect(&lab.w, c, &p.class);
                 // a read that names a collection whose handle is not loaded performs the
@@ -825,7 +889,7 @@ async fn rnw_case(cfg: &Cfg, life: Life, st: &mut Stats) -> Result<(), String> {
                         accounted += o.effective().len();
                         let prefix = format!("{db}/");
                         if o.landed.iter().any(|x| !x.path().as_ref().starts_with(&prefix)) {
-                            st.violation(
+                            viol(st, 
                                 format!("C14/confine/cold_open_wrote_outside_prefix/{}", c.kind),
                                 json!({"world": world_desc(&lab.w), "caller": c.label, "request": req.describe(),
                                        "mutations": describe_muts(&o.landed)}),
@@ -844,7 +908,7 @@ async fn rnw_case(cfg: &Cfg, life: Life, st: &mut Stats) -> Result<(), String> {
                 st.count("rnw_executions");
                 st.count(&format!("rnw:{m}"));
                 st.count(&format!("rnw_caller:{}", c.kind));
-                st.distinct(vcore::fnv_str(&format!("rnw|{life:?}|{}|{}|{enc:?}|{m}", c.kind, p.label)));
+                st.distinct(vcore::fnv_str(&format!("rnw|{}|{life:?}|{}|{}|{enc:?}|{m}", cfg.names.a, c.kind, p.label)));
                 if o.resp.status == 200 {
                     st.count("rnw_status_200");
                 } else if o.resp.status == 401 {
@@ -859,16 +923,16 @@ async fn rnw_case(cfg: &Cfg, life: Life, st: &mut Stats) -> Result<(), String> {
                            "admin_view_changed": o.changed()})
                 };
                 if !o.effective().is_empty() {
-                    st.violation(format!("C14/read_wrote/{m}"), detail("a Read-labelled method wrote to storage"));
+                    viol(st, format!("C14/read_wrote/{m}"), detail("a Read-labelled method wrote to storage"));
                 }
                 if !o.changed().is_empty() {
-                    st.violation(format!("C14/read_changed_state/{m}"), detail("a Read-labelled method changed the admin view"));
+                    viol(st, format!("C14/read_changed_state/{m}"), detail("a Read-labelled method changed the admin view"));
                 }
                 if let Expect::Db(own) = &exp {
                     if let Some(hit) = find_leak(&o.resp.body, &needles(&lab.w, own, c, &req)) {
                         let mut d = detail("the response to a database key contains foreign data");
                         d["leaked"] = json!(hit);
-                        st.violation(format!("C14/confine/response_leak/{}", c.kind), d);
+                        viol(st, format!("C14/confine/response_leak/{}", c.kind), d);
                     }
                 }
             }
@@ -881,7 +945,7 @@ async fn rnw_case(cfg: &Cfg, life: Life, st: &mut Stats) -> Result<(), String> {
     st.count("oracle_no_late_write");
     if total != accounted {
         let all = lab.w.effective_since(block_mark);
-        st.violation(
+        viol(st, 
             "C14/read_wrote/late",
             json!({"what": "storage mutations appeared after the read responses were delivered",
                    "world": world_desc(&lab.w), "accounted": accounted, "total": total,
@@ -1184,7 +1248,7 @@ async fn hist_case(case: u64, rng: &mut Rng, st: &mut Stats, len: usize) -> Resu
     for enc in [Enc::Cbor, Enc::Json] {
         let r = send(&worlds[0].app, &Req { path: "/".into(), auth: None, enc, method: "info".into(), params: json!({}) }).await?;
         if r.status != 401 {
-            st.violation("C14/reject/anonymous_root_not_401", json!({"response": r.describe()}));
+            viol(st, "C14/reject/anonymous_root_not_401", json!({"response": r.describe()}));
         }
         canon.insert(enc as u8, r);
     }
@@ -1285,10 +1349,10 @@ async fn hist_case(case: u64, rng: &mut Rng, st: &mut Stats, len: usize) -> Resu
                     }
                     if r != canon[&(pr.enc as u8)] {
                         let sig = if revoked { "C14/history/revoked_key_not_rejected" } else { "C14/history/not_uniform_rejection" };
-                        st.violation(sig, detail("a caller without a valid binding did not get the uniform rejection"));
+                        viol(st, sig, detail("a caller without a valid binding did not get the uniform rejection"));
                     }
                     if !landed.is_empty() {
-                        st.violation("C14/history/rejected_request_wrote", detail("a rejected request wrote to storage"));
+                        viol(st, "C14/history/rejected_request_wrote", detail("a rejected request wrote to storage"));
                     }
                 } else {
                     st.count("hist_expected_accept");
@@ -1298,12 +1362,16 @@ async fn hist_case(case: u64, rng: &mut Rng, st: &mut Stats, len: usize) -> Resu
                         _ => 200,
                     };
                     if r.status == 401 {
-                        st.violation("C14/history/bound_key_rejected", detail("the key the model has bound (or the admin key) is rejected"));
+                        // not forbidden by the property (the caller is confined even more), but the
+                        // model of the documented bindings no longer describes the server
+                        st.inconclusive(format!(
+                            "hist: the key the documented rules keep bound is rejected after {op:?} (model out of sync)"
+                        ));
                     } else if r.status != want {
                         st.inconclusive(format!("hist: accepted probe answered {} (model expects {want}) for {op:?}", r.status));
                     }
                     if !pr.mutating && !landed.is_empty() {
-                        st.violation(format!("C14/read_wrote/{method}"), detail("a Read-labelled method wrote to storage"));
+                        viol(st, format!("C14/read_wrote/{method}"), detail("a Read-labelled method wrote to storage"));
                     }
                     if !admin {
                         if let Some(d) = pr.target {
@@ -1315,11 +1383,11 @@ async fn hist_case(case: u64, rng: &mut Rng, st: &mut Stats, len: usize) -> Resu
                             if let Some(hit) = find_leak(&r.body, &nd) {
                                 let mut dd = detail("response to a database key contains foreign data");
                                 dd["leaked"] = json!(hit);
-                                st.violation("C14/history/response_leak", dd);
+                                viol(st, "C14/history/response_leak", dd);
                             }
                             let prefix = format!("{}/", HIST_DBS[d]);
                             if landed.iter().any(|m| !m.path().as_ref().starts_with(&prefix)) {
-                                st.violation("C14/history/write_outside_prefix", detail("a database key wrote outside its prefix"));
+                                viol(st, "C14/history/write_outside_prefix", detail("a database key wrote outside its prefix"));
                             }
                         }
                     }
@@ -1336,7 +1404,7 @@ async fn hist_case(case: u64, rng: &mut Rng, st: &mut Stats, len: usize) -> Resu
                         let Some(a) = a else { continue };
                         let same = if own_db { masked(a) == masked(base) } else { a == base };
                         if !same {
-                            st.violation(
+                            viol(st, 
                                 "C14/isolation/history_differs_across_worlds",
                                 json!({"what": "a caller without any key of B gets different answers depending on B",
                                        "history": trace, "step": step, "probe": format!("{pr:?}"),
@@ -1385,7 +1453,7 @@ async fn guards_case(cfg: &Cfg, st: &mut Stats) -> Result<(), String> {
             for db in [&n.a, &n.b] {
                 let r = probe(&app, None, format!("/{db}"), "db.metadata").await?;
                 if r.status == 200 {
-                    st.violation(
+                    viol(st, 
                         "C14/guards/keyless_restart_serves_bound_database",
                         json!({"what": "restarted without an admin key over persisted bindings: a bound database answers an anonymous caller",
                                "database": db, "response": r.describe()}),
@@ -1416,7 +1484,7 @@ async fn guards_case(cfg: &Cfg, st: &mut Stats) -> Result<(), String> {
             st.inconclusive(format!("guards: bound key not accepted after restart ({path}: {})", r.status));
         }
         if !want_ok && r.status != 401 {
-            st.violation(
+            viol(st, 
                 "C14/guards/stale_or_foreign_key_accepted_after_restart",
                 json!({"path": path, "key": key, "response": r.describe()}),
             );
@@ -1445,7 +1513,7 @@ async fn guards_case(cfg: &Cfg, st: &mut Stats) -> Result<(), String> {
         }
         let after = probe(&w.app, Some(key), format!("/{db}"), "db.get_extension").await?;
         if after.status != 401 {
-            st.violation(
+            viol(st, 
                 "C14/guards/refused_binding_took_effect",
                 json!({"what": "a key the documentation says cannot be bound this way is accepted afterwards",
                        "attempt": {"method": method, "params": params, "status": r.status},
@@ -1501,7 +1569,7 @@ fn main() {
     run.assume("the uniform rejection is compared as status + all response headers + body bytes; no field needed masking (no date / request-id header is produced in-process)");
     run.assume("own-database reads of a database key are compared across the B-worlds modulo integers in the unix-millisecond range and the clock-dependent statistics fields version/last_saved/check_point/total_*/get_count/search_count (storage metadata writes are rate-limited by wall-clock milliseconds)");
     run.assume("a read that names a collection whose handle is not loaded performs the lazy open documented in api/collection.rs::open (detached task, may flush): its writes are counted and confined to the database prefix, the reads-never-write oracle measures the read on the loaded handle");
-    run.assume("database <-> storage mapping: every object of database X lives under the prefix `X/` (anda_db: Path::from(db.name()))");
+    run.assume("database <-> storage mapping: every object of database X lives under the prefix `X/` (anda_db: Path::from(db.name())); no server-level bookkeeping is documented for (or was observed from) a database-scope request, so a database key may mutate nothing outside that prefix");
     run.assume("flush_interval is one day so that the periodic flush task never fires inside a measured window; spawned tasks are drained with yield_now rounds plus one 3 ms sleep per lifecycle block");
 
     let dir = server_crate_dir(run.args.get("server_src"));
@@ -1541,6 +1609,7 @@ fn main() {
     let mut matrix_complete = true;
     let mut matrix_expected = 0u64;
     let mut matrix_runs = 0u64;
+    let (mut n_callers, mut n_paths) = (0u64, 0u64);
     for pair in &pairs {
         let names = Names::pair(*pair);
         let Some(hash) = stored_hash_of_a(&names, &keys) else {
@@ -1549,6 +1618,7 @@ fn main() {
         };
         let cfg = Cfg { table: table.clone(), names: names.clone(), keys: keys.clone(), callers: callers(&keys, &hash), paths: paths(&names) };
         let (nc, np) = (cfg.callers.len() as u64, cfg.paths.len() as u64);
+        (n_callers, n_paths) = (nc, np);
         if run.wants("matrix") {
             let lives: Vec<Life> = tier.pick(vec![Life::Warm], vec![Life::Warm, Life::Restarted, Life::ReadOnly, Life::CrashedPending]);
             for life in lives {
@@ -1593,7 +1663,7 @@ fn main() {
     if run.wants("matrix") && run.replay.is_none() {
         let got = run.stats.get("matrix_requests");
         run.set_extra("matrix", json!({"requests_expected": matrix_expected, "requests_executed": got,
-            "callers": 20, "paths": 20, "encodings": 3, "matrix_runs (name pair x lifecycle state)": matrix_runs}));
+            "callers": n_callers, "paths": n_paths, "encodings": 3, "matrix_runs (name pair x lifecycle state)": matrix_runs}));
         run.exhaustive = Some(matrix_complete && got == matrix_expected);
         if got != matrix_expected {
             run.stats.inconclusive(format!("matrix not enumerated completely: {got} of {matrix_expected} requests"));
@@ -1612,6 +1682,8 @@ fn main() {
     run.floor("executed:key_a", 100);
     run.floor("executed:key_b", 50);
     run.floor("world_rebuilds", 100);
+    run.floor("traversal_reads", 50);
+    run.floor("traversal_mutating", 50);
     run.floor("http_method_requests", 1_000);
     for (m, _) in table.root.iter().filter(|(m, _)| KNOWN_ROOT.contains(&m.as_str())) {
         run.floor(&format!("executed_method:{m}"), 1);
